@@ -271,10 +271,43 @@ func main() {
 	var violations []*Obligation
 	var broken []*Obligation
 	smoke := 0
+	// return statements: a refactoring may add a return that is unreachable under a restrictive precondition; what
+	// must not happen is that a function ends up with FEWER reachable returns than it had when its obligations were
+	// registered (that is the signature of contradictory assumptions on some path: the vacuity hole of DESIGN §7)
+	rcPath := filepath.Join(*verifDir, "engine", "return_counts.json")
+	regReturns := map[string]int{}
+	if data, err := os.ReadFile(rcPath); err == nil {
+		json.Unmarshal(data, &regReturns)
+	}
+	reachable := map[string]int{}
+	var deadReturns []*Obligation
+	for _, o := range mine {
+		if o.Vacuous && strings.Contains(o.Name, ".smoke.return@") {
+			if o.Status == "error" {
+				deadReturns = append(deadReturns, o)
+			} else {
+				reachable[o.Func]++
+			}
+		}
+	}
+	if *updateExpected && *prop != "" {
+		for f, n := range reachable {
+			regReturns[f] = n
+		}
+		data, _ := json.MarshalIndent(regReturns, "", " ")
+		os.WriteFile(rcPath, data, 0o644)
+	}
+	deadOK := map[*Obligation]bool{}
+	for _, o := range deadReturns {
+		if want, ok := regReturns[o.Func]; ok && reachable[o.Func] >= want && want > 0 {
+			deadOK[o] = true
+			e.warnings[fmt.Sprintf("%s: a return statement is unreachable under the precondition (%d reachable, %d registered)", o.Func, reachable[o.Func], want)] = true
+		}
+	}
 	for _, o := range mine {
 		if o.Vacuous {
 			smoke++
-			if o.Status == "error" {
+			if o.Status == "error" && !deadOK[o] {
 				broken = append(broken, o)
 			}
 			continue
@@ -409,10 +442,12 @@ func main() {
 		}
 	}
 	// A contract that no longer fits the shape of the code (a clause names a loop, call or variable that is gone; a
-	// construct the engine cannot translate; a registered obligation that is no longer generated) decides nothing:
-	// every failure inside such a function is a consequence of the mismatch, not evidence against the property.
-	// Such functions are reported as UNDECIDED (exit 2 when nothing else fails); a VIOLATION is a failed proof
-	// obligation of a function whose contract still resolves and translates completely.
+	// construct the engine cannot translate; a registered obligation that is no longer generated) strictly decides
+	// nothing about that function. Measured on the two corpora (DESIGN.md §5.1): 36 of 94 property-breaking changes
+	// reshape the code they break, against 10 of 54 behaviour-preserving refactorings; reporting such functions as
+	// undecided would lose far more detections than it saves false alarms, so by default every failure is reported
+	// as a VIOLATION (the structural ones say so in their name: contract.resolves, translates, missing). With
+	// VERIF_UNDECIDED=1 they are reported as UNDECIDED instead (exit 2 when nothing else fails).
 	structural := map[string]bool{}
 	for _, o := range realViolations {
 		if o.Kind == "contract.resolves" || o.Kind == "translates" || o.Kind == "exists" {
@@ -434,7 +469,7 @@ func main() {
 	var decided, undecided []*Obligation
 	for _, o := range realViolations {
 		f := funcOf(o)
-		if os.Getenv("VERIF_STRUCTURAL_AS_VIOLATION") == "" && (structural[f] || o.Kind == "missing") {
+		if os.Getenv("VERIF_UNDECIDED") != "" && (structural[f] || o.Kind == "missing") {
 			undecided = append(undecided, o)
 		} else {
 			decided = append(decided, o)
